@@ -44,7 +44,8 @@ var badHeadlineTails = []string{" foo", " (8h)", " 8h!", " (8h!) x", " (8h!)x", 
 
 var badValues = []string{"9223372036854775807h", "99999999999999999999h", "-9223372036854775808m", "153722867280912930h08m", "1h\u00a0note", "8:00\u2003-\u20039:00", "8:00 - 9:00\u3000note", "8:00\u00a0- ?", "8:00\u2020-\u20209:00", "8:00\u0120- ?", "8\u013a00 - 9:00", "8:00 \u012d 9:00", "1\u0168", "30\u016d", "\u0131:00 - 2:00", "8:00 - \u013f", "8:30AM - 9:00AM", "1:15Pm - 2:00pm", "8:00 - 6:00PM", "<11:00pM - 1:00am", "6:00AM> - ?", "8:00am - ?PM", "1H", "1h30M", "8:0 - 9:00", "25:00 - 26:00", "24:01 - 24:02", "13:00pm - 2:00pm", "0:30am - 1:00am", "<8:00> - 9:00", "24:00> - 1:00>", "8:60 - 9:00", "8:00 9:00", "8:00 -", "8:00 - ", "8:00 - ?>", "8:00 - <?",
 	"8:00 - ?x", "8:00 – 9:00", "8:00 -- 9:00", "8.00 - 9.00", "8h00 - 9h00", "800 - 900", "8:00am-", "1h60m", "h", "1m1h", "1.5h", "1,5h", "1hm", "5", "1h5", "−1h", "+-1h", "1h1h", "one hour", "8:00 - 9:00pmx",
-	"8:00\t-\t9:00", "8:00 -\t9:00", "8:00 \t- 9:00", "8:00-\t9:00", "8:00 -\t?", "8:00 \t-?", "8:00am-\t1:00pm", "8:00 - \t9:00", "8:00 - 9:00>>", "<<8:00 - 9:00", "8:00 - 9:0", "8:000 - 9:00", "008:00 - 9:00", "8:00 - 24:00>", "12:00am - 13:00am", "#tag", "- 1h", "?", "? - 9:00", "8:00 - ? - ?"}
+	"8:00\t-\t9:00", "8:00 -\t9:00", "8:00 \t- 9:00", "8:00-\t9:00", "8:00 -\t?", "8:00 \t-?", "8:00am-\t1:00pm", "8:00 - \t9:00", "8:00 - 9:00>>", "<<8:00 - 9:00", "8:00 - 9:0", "8:000 - 9:00", "008:00 - 9:00", "8:00 - 24:00>", "12:00am - 13:00am", "#tag", "- 1h", "?", "? - 9:00", "8:00 - ? - ?",
+	"+8:00 - 9:00", "8:00 - 9:+5", "8:+0 - 9:00", "+9:00 - ?", "<23:00 - -0:30", "-0:30 - 1:00", "8:00 - +9:00", "8:-0 - 9:00", "+8:00am - 9:00am", "0:+1 - ?", "8:00 - 9: 5", "8: 0 - 9:00"}
 
 // posClass names the position of index i among n.
 func posClass(i, n int) string {
@@ -117,7 +118,11 @@ func Mutate(r *core.Rand, o *Out) (m Mutant, ok bool) {
 	insertAfter := func(i int, l srcLine) {
 		// the new line takes the ending of line i; if line i had none (end of file), it gains one
 		if ls[i].eol == "" {
-			ls[i].eol = o.Layouts[maxInt(o.Lines[i].Rec, 0)].EOL
+			oi := i
+			if oi >= len(o.Lines) {
+				oi = len(o.Lines) - 1 // a line inserted by this operator: the layout of the last original line
+			}
+			ls[i].eol = o.Layouts[maxInt(o.Lines[oi].Rec, 0)].EOL
 			l.eol = ""
 		} else if l.eol == "" {
 			l.eol = ls[i].eol
@@ -125,7 +130,7 @@ func Mutate(r *core.Rand, o *Out) (m Mutant, ok bool) {
 		ls = append(ls[:i+1], append([]srcLine{l}, ls[i+1:]...)...)
 	}
 
-	switch op := r.Intn(18); op {
+	switch op := r.Intn(20); op {
 	case 0: // malformed / non-Gregorian date
 		i, _ := pick(heads)
 		old := ls[i].text
@@ -394,6 +399,52 @@ func Mutate(r *core.Rand, o *Out) (m Mutant, ok bool) {
 		}
 		ls[i].text += r.Pick("\r", "\r\r", "\r")
 		set("stray-carriage-return", i)
+	case 18: // the same faulty entry line twice in a row in ONE record (each fault has its own line)
+		i, has := pick(entries)
+		if !has {
+			return m, false
+		}
+		ind := indentOf(o.Lines[i].Rec)
+		j := i
+		for j+1 < len(o.Lines) && o.Lines[j+1].Kind == LEntryCont {
+			j++
+		}
+		bad := ind + r.Pick("25:00 - 26:00", "1h60m", "garbage", "8:00 -", "9:00 - 8:00", "8:60 - 9:00 note", "1.5h") + r.Pick("", " same", " #dup")
+		ls[i].text = bad
+		for k := i + 1; k <= j; k++ {
+			ls[k].text = ind + ind + "x"
+		}
+		insertAfter(j, srcLine{text: bad})
+		if r.Bool() {
+			insertAfter(j+1, srcLine{text: bad})
+		}
+		set("same-faulty-line-twice", i)
+	case 19: // the same open range twice in ONE record, letter for letter: the second one is the fault
+		var cands []int
+		for _, i := range entries {
+			if o.Doc.Recs[o.Lines[i].Rec].OpenIndex() < 0 {
+				cands = append(cands, i)
+			}
+		}
+		if len(cands) == 0 {
+			return m, false
+		}
+		i := cands[r.Intn(len(cands))]
+		ind := indentOf(o.Lines[i].Rec)
+		j := i
+		for j+1 < len(o.Lines) && o.Lines[j+1].Kind == LEntryCont {
+			j++
+		}
+		open := ind + r.Pick("8:00 - ?", "8:00-?", "9:15 - ??? again", "<23:00 - ? #t", "1:00pm - ?")
+		insertAfter(j, srcLine{text: open})
+		if r.Bool() {
+			insertAfter(j+1, srcLine{text: ind + r.Pick("1h", "-15m break", "10:00 - 11:00")})
+			insertAfter(j+2, srcLine{text: open})
+			set("same-open-range-twice", j+3)
+		} else {
+			insertAfter(j+1, srcLine{text: open})
+			set("same-open-range-twice", j+2)
+		}
 	case 15: // duplicate the headline inside the record (extra text block without blank line)
 		i, has := pick(entries)
 		if !has {
